@@ -30,7 +30,7 @@ def sh(cmd, timeout=1800, env=None, cwd=None):
 
 
 def run_demo(demo, repo=None):
-    rc, out = sh(f"timeout 600 /venv/bin/python {demo}", env={"PYTHONPATH": f"{repo or REPO}/src:/tmp"})
+    rc, out = sh(f"timeout 600 /venv/bin/python {demo}", env={"PYTHONPATH": f"{repo or REPO}/src:{ROOT / 'seeded'}:/tmp"})  # seeded/np_shim.py: the demos import it first
     return rc, out[-1500:]
 
 
